@@ -115,7 +115,7 @@ func main() {
 	}
 	w := bufio.NewWriter(f)
 	defer w.Flush()
-	for _, c := range generatedCases {
+	for _, c := range append(append([]structCase{}, witnessCases...), generatedCases...) {
 		bopts := []sql_builder.SqlBuilderOption{sql_builder.WithSqlTag(c.cfg.tagKey), sql_builder.WithDialect(dialectOpt(c.cfg.dialect))}
 		sopts := []sqlize.SqlizeOption{sqlize.WithSqlTag(c.cfg.tagKey)}
 		switch c.cfg.dialect {
